@@ -489,6 +489,13 @@ func (ev *sqlEval) sel(q *sqlx.Select) *Table {
 					env[c] = o.vals[ci]
 				}
 			}
+			// an explicit alias that repeats the name of a source column (SELECT *, e AS "y" ... ORDER BY "y"):
+			// the target dialect resolves the name in ORDER BY to the alias
+			for ci, c := range out.Cols {
+				if _, explicit := aliasExpr[c]; explicit && cnt[c] > 1 {
+					env[c] = o.vals[ci] // the alias column comes after the star columns: the last one wins
+				}
+			}
 			ctx := &sem.Ctx{Env: env, In: ev.in}
 			for _, ob := range q.OrderBy {
 				k := sortKey{v: ctx.SQL(ob.X), desc: ob.Desc, nullsFirst: ob.NullsFirst}
